@@ -936,6 +936,10 @@ func JSSpell(p *JSProg, st JSStyle) (src string, idents []JSIdentOcc) {
 		if i > 0 && s.toks[i-1].s != "\n" {
 			prev := s.toks[i-1].s
 			need := !(safe(prev[len(prev)-1]) || safe(tk.s[0]))
+			if (prev == "?" || prev == ":") && (tk.s[0] >= '0' && tk.s[0] <= '9' || tk.s[0] >= 'a' && tk.s[0] <= 'z' || tk.s[0] >= 'A' && tk.s[0] <= 'Z' || tk.s[0] == '_' || tk.s[0] == '$' || tk.s[0] == '\'' || tk.s[0] == '"' ||
+				tk.s[0] == '.' && len(tk.s) > 1 && tk.s[1] >= '0' && tk.s[1] <= '9') {
+				need = false // a?.5:b, a?b:c — "?." in front of a digit is not an optional chain
+			}
 			if strings.HasSuffix(prev, "${") || tk.s[0] == '}' && (strings.HasSuffix(tk.s, "`") || strings.HasSuffix(tk.s, "${")) && len(tk.s) >= 1 && isTemplatePiece(tk.s) {
 				need = false
 			}
